@@ -10,7 +10,7 @@ import os, ast, itertools, math
 import numpy as np
 from . import common
 
-THEOREM_FILES = ['NumqiProps/C19.lean', 'NumqiProps/C19ErrorSets.lean']
+THEOREM_FILES = ['NumqiProps/C19.lean', 'NumqiProps/C19ErrorSets.lean', 'NumqiProps/C19Coverage.lean']
 THOROUGH_FILE = 'NumqiProps/C19Thorough.lean'
 LEVEL = 'proof'
 RULE = ('one op per shipped code and kind (code words, tableau generators, per-error KL classification, check_stabilizer, '
@@ -532,7 +532,7 @@ def impl_op(op, codes):
     import numqi
     t = op.split(' ')
     k = t[1]
-    if k in ('cw', 'gens', 'fix', 'chk', 'ortho', 'kl', 'scirc', 'listed', 'wenum', 'checks'):
+    if k in ('cw', 'gens', 'fix', 'chk', 'ortho', 'kl', 'scirc', 'listed', 'wenum', 'wenumk', 'checks'):
         c = codes.get(t[2])
         if c is None or 'error' in c:
             return 'bad-op'
@@ -592,15 +592,20 @@ def impl_op(op, codes):
             return guarded(f)
         if k == 'listed':
             return ' '.join(c['listed'] or [])
-        if k == 'wenum':
+        if k in ('wenum', 'wenumk'):
             def f():
                 code = real_codewords(c)
+                if k == 'wenumk':
+                    code = code[:int(t[3])]
+                Kc = code.shape[0]
                 A, B = numqi.qec.quantum_weight_enumerator(code)
                 sc = 4 ** h
                 tr = np.trace(code.conj() @ code.T)
                 a0 = abs(tr) ** 2 * sc / 1  # K^2 4^h A_0,  A_0 = |tr Π|^2 / K^2
                 b0 = np.vdot(code.conj() @ code.T, code.conj() @ code.T).real * sc  # K 4^h B_0,  B_0 = tr(Π Π)/K
-                ent = [(a0, b0)] + [(A[j] * K * K * sc, B[j] * K * sc) for j in range(n)]
+                if k == 'wenum':
+                    Kc = K
+                ent = [(a0, b0)] + [(A[j] * Kc * Kc * sc, B[j] * Kc * sc) for j in range(n)]
                 out = []
                 for a, b in ent:
                     ra, rb = round(a), round(b)
@@ -704,6 +709,8 @@ def gen_ops(ctx, codes):
                 f'C19 listed {lname}', f'C19 checks {lname}']
         if c['n'] <= 6 or (not quick and c['n'] <= 8 and c['K'] <= 8):
             ops.append(f'C19 wenum {lname}')
+            if c['K'] >= 4 and c['n'] <= 6:
+                ops.append(f'C19 wenumk {lname} 3')     # number of code words not a power of two (the implementation pads with zeros)
     for n in range(1, 7):
         for d in range(0, 5):
             ops.append(f'C19 errlist {n} {d}')
@@ -1091,6 +1098,12 @@ def probe_history(ctx):
     codes = get_codes()
     rng = ctx.rng
 
+    def extend_by_copy(r):
+        # (a circuit must not be extended by itself: extend_circuit iterates the list it appends to)
+        tmp = numqi.sim.Circuit()
+        tmp.gate_index_list = list(r['encode'].gate_index_list)
+        r['stabilizer'][-1].extend_circuit(tmp)
+
     def history_steps(c):
         K = c['K']
         kk = max(1, (K - 1).bit_length())
@@ -1101,7 +1114,7 @@ def probe_history(ctx):
              lambda r: numqi.qec.VarQEC(r['encode'], K, numqi.qec.make_error_list(c['n'], 2))),
             ('result["encode"].X(0)', lambda r: r['encode'].X(0)),
             ('result["encode"].append_gate(result["encode"].gate_index_list[0][0], (1,))', lambda r: r['encode'].append_gate(r['encode'].gate_index_list[0][0], (1,))),
-            ('result["stabilizer"][-1].extend_circuit(result["encode"])', lambda r: r['stabilizer'][-1].extend_circuit(r['encode'])),
+            ('tmp = Circuit(); tmp.gate_index_list = list(result["encode"].gate_index_list); result["stabilizer"][-1].extend_circuit(tmp)', extend_by_copy),
             ('result["stabilizer"].pop()', lambda r: r['stabilizer'].pop()),
             ('result["stabilizer"].append(result["encode"])', lambda r: r['stabilizer'].append(r['encode'])),
             ('result["encode"].gate_index_list.pop()', lambda r: r['encode'].gate_index_list.pop()),
@@ -1226,6 +1239,173 @@ def probe_kl_loss(ctx):
                             ctx.probe_ok()
 
 
+def probe_corpus(ctx):
+    """original witnesses of the repaired defects of this property (corpus/C19/*.json), replayed first in both tiers"""
+    import numqi, glob, json
+    from fractions import Fraction
+    for f in sorted(glob.glob(os.path.join(common.VERIF, 'corpus', 'C19', '*.json'))):
+        base = os.path.basename(f)
+        for i, e in enumerate(json.load(open(f))['entries']):
+            ctx.count('corpus')
+            try:
+                if e['kind'] == 'stabilizer_circuit_operator':
+                    r = get_generator(e['generator'])()
+                    circ = r['stabilizer'][e['index']]
+                    s = e['string']
+                    U = circuit_unitary(circ, len(s))
+                    if np.abs(U - pauli_matrix(s)).max() > 1e-9:
+                        ctx.fail('stabilizer-circuits:identity', f'{e["generator"]}()["stabilizer"][{e["index"]}] is not its listed string {s}' +
+                                 (' (it is the identity)' if np.abs(U - np.eye(2 ** len(s))).max() < 1e-9 else ''),
+                                 dict(op='stabilizer_circuit_operator', corpus=base, **e))
+                    else:
+                        ctx.probe_ok(('corpus', base, i))
+                elif e['kind'] == 'parse_simple_pauli':
+                    s = e['string']
+                    circ = numqi.qec.parse_simple_pauli(s, tag_circuit=True)
+                    if any(ch.isdigit() for ch in s):
+                        import re as _re
+                        toks = [(x[0], int(x[1:])) for x in _re.findall('[XYZI][0-9]+', s)]
+                        n = max(q for _, q in toks) + 1
+                        full = ['I'] * n
+                        for ch, q in toks: full[q] = ch
+                        full = ''.join(full)
+                    else:
+                        full = s
+                    U = circuit_unitary(circ, len(full))
+                    if np.abs(U - pauli_matrix(full)).max() > 1e-9:
+                        ctx.fail('stabilizer-circuits:identity', f'parse_simple_pauli({s!r}) does not implement {full}', dict(op='parse_simple_pauli', corpus=base, **e))
+                    else:
+                        ctx.probe_ok(('corpus', base, i))
+                elif e['kind'] == 'make_asymmetric_error_set':
+                    w = Fraction(e['weight_z'])
+                    got = [sparse_to_str(e['n'], x, gate_name) for x in numqi.qec.make_asymmetric_error_set(e['n'], e['d'], weight_z=float(w))]
+                    missing = [x for x in e['must_contain'] if x not in got]
+                    if missing:
+                        ctx.fail('make_asymmetric_error_set:num_qubit<distance' if e['n'] < e['d'] else 'make_asymmetric_error_set',
+                                 f'make_asymmetric_error_set({e["n"]},{e["d"]},weight_z={e["weight_z"]}) misses {missing}', dict(op='make_asymmetric_error_set', corpus=base, missing=missing, **e))
+                    else:
+                        ctx.probe_ok(('corpus', base, i))
+            except Exception as ex:
+                ctx.fail(f'corpus:{base}', f'corpus entry {i} of {base} raised {type(ex).__name__}: {ex}', dict(op='corpus', corpus=base, entry=e))
+
+
+def gates_snapshot():
+    import numqi
+    return {k: np.array(getattr(numqi.gate, k), copy=True) for k in ('X', 'Y', 'Z', 'H', 'S', 'CNOT') if hasattr(numqi.gate, k)}
+
+
+def probe_aliasing_dtype(ctx):
+    """ALIASING: every library call leaves its array / circuit / error-list arguments and the module-level gate constants
+    bit-identical, the same call on the very same objects gives the identical result twice, outputs can be fed back as inputs.
+    DTYPE: complex64 code words, non-contiguous views, torch inputs, integer / float basis states (encoders with real gates).
+    BOUNDARY: number of code words not a power of two."""
+    import numqi, torch
+    codes = get_codes()
+
+    def same(a, b):
+        a, b = np.asarray(a), np.asarray(b)
+        return a.shape == b.shape and a.dtype == b.dtype and np.array_equal(a, b)
+
+    for lname in ('code523', 'code422', 'code442', 'code642'):
+        c = codes.get(lname)
+        if c is None or 'error' in c:
+            continue
+        name, n, K, d = c['name'], c['n'], c['K'], c['d']
+        tag = f'{lname}:aliasing'
+        try:
+            r = get_generator(c['fname'])()
+            circ, stabs = r['encode'], r['stabilizer']
+            fp0 = fingerprint(r)
+            g0 = gates_snapshot()
+            code = numqi.qec.generate_code_np(circ, K)
+            code_again = numqi.qec.generate_code_np(circ, K)
+            errs = numqi.qec.make_error_list(n, d)
+            errs_fp = [[(tuple(i), np.array(g, copy=True)) for i, g in e] for e in errs]
+            snap = code.copy()
+            calls = [
+                ('generate_code_np twice', lambda: code_again, lambda: code),
+                ('check_stabilizer', lambda: numqi.qec.check_stabilizer(stabs, code), None),
+                ('knill_laflamme_inner_product', lambda: numqi.qec.knill_laflamme_inner_product(code, errs), None),
+                ('knill_laflamme_inner_product(torch)', lambda: numqi.qec.knill_laflamme_inner_product(torch.tensor(code), errs).numpy(), None),
+                ('quantum_weight_enumerator', (lambda: np.stack(numqi.qec.quantum_weight_enumerator(code))) if n <= 5 else None, None),
+                ('degeneracy', (lambda: numqi.qec.degeneracy(code[0])) if n <= 5 else None, None),
+                ('encode.apply_state', lambda: circ.apply_state(code[0]), None),
+                ('stabilizer.apply_state', lambda: stabs[0].apply_state(code[K - 1]), None),
+            ]
+            for nm, f, g in calls:
+                if f is None:
+                    continue
+                a = f(); b = g() if g else f()
+                bad = None
+                if not (np.asarray(a).shape == np.asarray(b).shape and np.array_equal(np.asarray(a), np.asarray(b))):
+                    bad = 'two identical calls give different results'
+                elif not same(code, snap):
+                    bad = 'the code-word array passed in was modified'
+                elif fingerprint(r) != fp0:
+                    bad = 'the circuits passed in were modified'
+                elif any(not np.array_equal(g0[k], getattr(numqi.gate, k)) for k in g0):
+                    bad = 'a module-level gate constant was modified'
+                elif any(tuple(i) != i0 or not np.array_equal(g_, g1) for e, e0 in zip(errs, errs_fp) for (i, g_), (i0, g1) in zip(e, e0)) or len(errs) != len(errs_fp):
+                    bad = 'the error list passed in was modified'
+                if bad:
+                    ctx.fail(tag, f'{name}: {nm}: {bad}', dict(code=name, op='aliasing', call=nm, observed=bad))
+                    code = snap.copy()
+                else:
+                    ctx.probe_ok((tag, nm))
+            # outputs as inputs, non-contiguous views, complex64
+            M = numqi.qec.knill_laflamme_inner_product(code, errs)
+            ref_chk = numqi.qec.check_stabilizer(stabs, code)
+            big = np.zeros((K, 2 ** (n + 1)), dtype=np.complex128); big[:, ::2] = code
+            view = big[:, ::2]
+            fort = np.asfortranarray(code)
+            for nm, arr, tol in (('non-contiguous view', view, 1e-12), ('Fortran-ordered', fort, 1e-12), ('complex64', code.astype(np.complex64), 2e-6)):
+                try:
+                    before = arr.copy()
+                    M2 = numqi.qec.knill_laflamme_inner_product(arr, errs)
+                    chk2 = numqi.qec.check_stabilizer(stabs, arr)
+                    ok = np.abs(M2 - M).max() <= tol and np.abs(chk2 - ref_chk).max() <= tol and np.array_equal(arr, before)
+                    if n <= 5:
+                        A1, B1 = numqi.qec.quantum_weight_enumerator(code); A2, B2 = numqi.qec.quantum_weight_enumerator(arr)
+                        ok = ok and np.abs(A1 - A2).max() <= max(tol, 1e-12) * 4 ** n and np.abs(B1 - B2).max() <= max(tol, 1e-12) * 4 ** n
+                    if not ok:
+                        ctx.fail(f'{lname}:dtype-layout', f'{name}: results change (or the input is modified) for {nm} code words', dict(code=name, op='dtype-layout', variant=nm))
+                    else:
+                        ctx.probe_ok((lname, 'layout', nm))
+                except Exception as ex:
+                    ctx.fail(f'{lname}:dtype-layout', f'{name}: {nm} code words raise {type(ex).__name__}: {ex}', dict(code=name, op='dtype-layout', variant=nm))
+            # loss of the library's own inner products, fed back
+            for kind in ('L1', 'L2'):
+                v = float(numqi.qec.knill_laflamme_loss(M, kind))
+                if abs(v) > 1e-12 or not np.array_equal(M, numqi.qec.knill_laflamme_inner_product(code, errs)):
+                    ctx.fail(f'{lname}:kl-loss', f'{name}: knill_laflamme_loss({kind}) of the library inner products = {v}', dict(code=name, op='knill_laflamme_loss', kind=kind, value=v))
+                else:
+                    ctx.probe_ok((lname, 'loss-fed-back', kind))
+            # integer / real basis states through encoders made of real gates only (complex controlled gates on real states: reported separately)
+            if all(g[0] in ('h', 'x', 'z', 'cx', 'cz') for g in c['encode']):
+                for dt in (np.int64, np.float64, np.float32, np.complex64):
+                    q0 = np.zeros(2 ** n, dtype=dt); q0[K - 1] = 1
+                    keep = q0.copy()
+                    got = circ.apply_state(q0)
+                    tol = 1e-6 if dt in (np.float32, np.complex64) else 1e-9
+                    if np.abs(got - code[K - 1]).max() > tol or not np.array_equal(q0, keep):
+                        ctx.fail(f'{lname}:dtype-basis-state', f'{name}: encoder applied to a {np.dtype(dt).name} basis state differs from the code word by {np.abs(got - code[K - 1]).max():.3g} (or modifies its input)',
+                                 dict(code=name, op='apply_state', dtype=np.dtype(dt).name, basis_state=K - 1))
+                    else:
+                        ctx.probe_ok((lname, 'basis-dtype', np.dtype(dt).name))
+            # number of code words not a power of two: the first K-1 (or 3) code words
+            K2 = 3 if K >= 4 else None
+            if K2:
+                sub = numqi.qec.generate_code_np(circ, K2)
+                if sub.shape != (K2, 2 ** n) or np.abs(sub - code[:K2]).max() > 0:
+                    ctx.fail(f'{lname}:K-not-power-of-two', f'{name}: generate_code_np(circ, {K2}) is not the first {K2} code words', dict(code=name, op='generate_code_np', K=K2))
+                else:
+                    ctx.probe_ok((lname, 'K3'))
+                r1 = guarded(lambda: numqi.qec.knill_laflamme_inner_product(sub, errs).shape)
+                ctx.count('K3-kl-' + str(r1)[:20])
+        except Exception as ex:
+            ctx.fail(tag, f'{name}: aliasing/dtype probe raised {type(ex).__name__}: {ex}', dict(code=name, op='aliasing'))
+
+
 def probe_weight_enumerator(ctx, c):
     import numqi
     name, n, K, d = c['name'], c['n'], c['K'], c['d']
@@ -1248,9 +1428,19 @@ def probe_weight_enumerator(ctx, c):
         ctx.probe_ok((c['lname'], 'wenum-AB'))
 
 
+def guarded_section(ctx, name, f, *a):
+    """a crash inside a probe section is a reported failure, never an internal error of the check"""
+    try:
+        f(*a)
+    except Exception as ex:
+        import traceback
+        ctx.fail(f'probe-crash:{name}', f'probe section {name} raised {type(ex).__name__}: {ex}', dict(op='probe-section', section=name, traceback=traceback.format_exc()[-1500:]))
+
+
 def probe(ctx):
     codes = get_codes()
     quick = ctx.quick()
+    guarded_section(ctx, 'corpus', probe_corpus, ctx)
     for f in PINNED:
         if f not in codes.get('__discovered__', []):
             ctx.fail(f'{PINNED[f][0]}:constructor', f'shipped generator numqi.qec.{f} no longer exists', dict(op='constructor', generator=f))
@@ -1271,12 +1461,13 @@ def probe(ctx):
         if c['n'] > 12:
             ctx.note(f'{c["fname"]}: {c["n"]} qubits, brute-force probe skipped')
             continue
-        probe_code(ctx, c, with_library_kl=(c['n'] <= 10 or not quick))
+        guarded_section(ctx, f'code:{lname}', probe_code, ctx, c, (c['n'] <= 10 or not quick))
         if c['n'] <= 6 or (not quick and c['n'] <= 8 and c['K'] <= 8):
-            probe_weight_enumerator(ctx, c)
-    probe_error_sets(ctx, 6 if quick else 7, 4 if quick else 5)
-    probe_asym_float(ctx)
-    probe_kl_loss(ctx)
+            guarded_section(ctx, f'weight-enumerator:{lname}', probe_weight_enumerator, ctx, c)
+    guarded_section(ctx, 'error-sets', probe_error_sets, ctx, 6 if quick else 7, 4 if quick else 5)
+    guarded_section(ctx, 'asym-float', probe_asym_float, ctx)
+    guarded_section(ctx, 'kl-loss', probe_kl_loss, ctx)
+    guarded_section(ctx, 'aliasing-dtype', probe_aliasing_dtype, ctx)
     # second instantiation must translate to the same data as the first
     for _, lname in CODES:
         c = codes.get(lname)
@@ -1286,7 +1477,7 @@ def probe(ctx):
                          dict(code=c['name'], op='history', history=[f'numqi.qec.{c["fname"]}()', f'numqi.qec.{c["fname"]}()']))
             else:
                 ctx.probe_ok((lname, 'second-instantiation'))
-    probe_history(ctx)
+    guarded_section(ctx, 'history', probe_history, ctx)
 
 
 def search(ctx, hints):
